@@ -1178,3 +1178,265 @@ Qed.
 
 Lemma join_two sep t u : join sep [t; u] = (t ++ sep ++ u)%string.
 Proof. now rewrite join_cons, join_single. Qed.
+
+(* ------------------------------------------------------------------------------------------ *)
+(** * strip *)
+
+Lemma drop_space_id l : (forall c r, l = c :: r -> is_space c = false) -> drop_space l = l.
+Proof. intros H. destruct l as [|c r]; [reflexivity|]. cbn [drop_space]. now rewrite (H c r eq_refl). Qed.
+
+Lemma drop_space_head l c r : drop_space l = c :: r -> is_space c = false.
+Proof.
+  induction l as [|a l IH]; cbn [drop_space]; [discriminate|].
+  destruct (is_space a) eqn:E; [exact IH|]. intros H. injection H as <- _. exact E.
+Qed.
+
+Lemma drop_space_spaces ws l : Forall (fun c => is_space c = true) ws -> drop_space (ws ++ l) = drop_space l.
+Proof. intros H. induction H as [|a ws Ha _ IH]; [reflexivity|]. cbn [app drop_space]. now rewrite Ha. Qed.
+
+Lemma drop_space_snoc l h : is_space h = false -> exists X, drop_space (l ++ [h]) = X ++ [h].
+Proof.
+  intros Hh. induction l as [|a l IH].
+  - exists []. cbn [app drop_space]. now rewrite Hh.
+  - cbn [app drop_space]. destruct (is_space a); [exact IH|]. now exists (a :: l).
+Qed.
+
+Lemma strip_no_space s :
+  (forall c r, chars s = c :: r -> is_space c = false) ->
+  (forall c r, rev (chars s) = c :: r -> is_space c = false) ->
+  strip s = s.
+Proof.
+  intros H1 H2. unfold strip. rewrite (drop_space_id (chars s)) by exact H1.
+  rewrite drop_space_id by exact H2. rewrite rev_involutive. apply str_of_chars.
+Qed.
+
+Lemma strip_empty : strip EmptyString = EmptyString.
+Proof. reflexivity. Qed.
+
+Lemma strip_all_nonspace s : (forall c, In c (chars s) -> is_space c = false) -> strip s = s.
+Proof.
+  intros H. apply strip_no_space.
+  - intros c r E. apply H. rewrite E. now left.
+  - intros c r E. apply H. apply in_rev. rewrite E. now left.
+Qed.
+
+Lemma strip_digits base s : all_digits base (chars s) -> strip s = s.
+Proof.
+  intros HF. apply strip_all_nonspace. intros c Hc. eapply digit_not_space.
+  eapply (proj1 (Forall_forall _ _)) in HF; eauto.
+Qed.
+
+(* strip removes exactly the surrounding whitespace *)
+Lemma strip_surrounded ws1 s ws2 :
+  Forall (fun c => is_space c = true) (chars ws1) -> Forall (fun c => is_space c = true) (chars ws2) ->
+  (forall c r, chars s = c :: r -> is_space c = false) ->
+  (forall c r, rev (chars s) = c :: r -> is_space c = false) ->
+  s <> EmptyString ->
+  strip (ws1 ++ s ++ ws2)%string = s.
+Proof.
+  intros W1 W2 H1 H2 Hne. unfold strip. rewrite !chars_app.
+  rewrite drop_space_spaces by exact W1.
+  assert (E : drop_space (chars s ++ chars ws2) = chars s ++ chars ws2).
+  { apply drop_space_id. intros c r E. destruct (chars s) as [|x xs] eqn:Es.
+    - apply chars_nil_iff in Es. contradiction.
+    - cbn [app] in E. injection E as -> _. eapply H1; reflexivity. }
+  rewrite E, rev_app_distr. rewrite drop_space_spaces by (apply Forall_rev; exact W2).
+  rewrite drop_space_id by exact H2. rewrite rev_involutive. apply str_of_chars.
+Qed.
+
+Lemma strip_trimmed s :
+  (forall c r, chars (strip s) = c :: r -> is_space c = false) /\
+  (forall c r, rev (chars (strip s)) = c :: r -> is_space c = false).
+Proof.
+  unfold strip. rewrite chars_str_of, rev_involutive. split; [|intros c r; apply drop_space_head].
+  intros c r E. destruct (drop_space (chars s)) as [|h t] eqn:Ed.
+  - cbn in E. discriminate.
+  - pose proof (drop_space_head _ _ _ Ed) as Hh. cbn [rev] in E.
+    destruct (drop_space_snoc (rev t) h Hh) as [X EX]. rewrite EX in E.
+    rewrite rev_app_distr in E. cbn [rev app] in E. injection E as <- _. exact Hh.
+Qed.
+
+Lemma strip_idem s : strip (strip s) = strip s.
+Proof. destruct (strip_trimmed s). now apply strip_no_space. Qed.
+
+(* ------------------------------------------------------------------------------------------ *)
+(** * lower *)
+
+Definition is_upper (c : ascii) : bool := (65 <=? code c) && (code c <=? 90).
+Definition is_letter (c : ascii) : bool :=
+  ((65 <=? code c) && (code c <=? 90)) || ((97 <=? code c) && (code c <=? 122)).
+
+Lemma lower_char_not_upper c : is_upper c = false -> lower_char c = c.
+Proof. unfold is_upper, lower_char. now intros ->. Qed.
+
+Lemma lower_char_upper c : is_upper c = true -> lower_char c = chr (code c + 32).
+Proof. unfold is_upper, lower_char. now intros ->. Qed.
+
+Lemma code_lower_char c : code (lower_char c) = if is_upper c then code c + 32 else code c.
+Proof.
+  destruct (is_upper c) eqn:E.
+  - rewrite lower_char_upper by exact E. unfold is_upper in E. apply code_chr. lia.
+  - now rewrite lower_char_not_upper.
+Qed.
+
+Lemma is_upper_lower_char c : is_upper (lower_char c) = false.
+Proof.
+  unfold is_upper at 1. rewrite code_lower_char. destruct (is_upper c) eqn:E; unfold is_upper in E; lia.
+Qed.
+
+Lemma lower_char_idem c : lower_char (lower_char c) = lower_char c.
+Proof. apply lower_char_not_upper, is_upper_lower_char. Qed.
+
+Lemma lower_idem s : lower (lower s) = lower s.
+Proof.
+  unfold lower. rewrite chars_str_of, map_map. f_equal. apply map_ext. intros c. apply lower_char_idem.
+Qed.
+
+Lemma lower_no_upper s : (forall c, In c (chars s) -> is_upper c = false) -> lower s = s.
+Proof.
+  intros H. unfold lower. rewrite <- (str_of_chars s) at 2. f_equal.
+  rewrite <- (map_id (chars s)) at 2. apply map_ext_in. intros c Hc. apply lower_char_not_upper. now apply H.
+Qed.
+
+Lemma lower_empty : lower EmptyString = EmptyString.
+Proof. reflexivity. Qed.
+
+Lemma lower_cons c s : lower (String c s) = String (lower_char c) (lower s).
+Proof. reflexivity. Qed.
+
+Lemma lower_app a b : lower (a ++ b)%string = (lower a ++ lower b)%string.
+Proof. unfold lower. now rewrite chars_app, map_app, str_of_app. Qed.
+
+Lemma lower_length s : String.length (lower s) = String.length s.
+Proof. unfold lower. now rewrite length_str_of, map_length, length_chars. Qed.
+
+Lemma chars_lower s : chars (lower s) = map lower_char (chars s).
+Proof. unfold lower. apply chars_str_of. Qed.
+
+(* a non-letter is its own only preimage under lower_char *)
+Lemma lower_char_eqb_nonletter c a : is_letter c = false -> ascii_eqb (lower_char a) c = ascii_eqb a c.
+Proof.
+  intros Hc. rewrite !ascii_eqb_code, code_lower_char. unfold is_letter in Hc.
+  destruct (is_upper a) eqn:E; unfold is_upper in E; lia.
+Qed.
+
+Lemma contains_char_lower c s : is_letter c = false -> contains_char c (lower s) = contains_char c s.
+Proof.
+  intros Hc. unfold contains_char. rewrite chars_lower. induction (chars s) as [|a l IH]; [reflexivity|].
+  cbn [map existsb]. rewrite IH. f_equal. rewrite (ascii_eqb_sym c), (ascii_eqb_sym c a).
+  now apply lower_char_eqb_nonletter.
+Qed.
+
+Lemma count_char_lower c s : is_letter c = false -> count_char c (lower s) = count_char c s.
+Proof.
+  intros Hc. unfold count_char. rewrite chars_lower. f_equal. induction (chars s) as [|a l IH]; [reflexivity|].
+  cbn [map filter]. rewrite (ascii_eqb_sym c), (ascii_eqb_sym c a), lower_char_eqb_nonletter by exact Hc.
+  destruct (ascii_eqb a c); cbn [List.length]; now rewrite IH.
+Qed.
+
+Lemma split_chars_lower c l cur : is_letter c = false ->
+  split_chars c (map lower_char l) (map lower_char cur) = map (map lower_char) (split_chars c l cur).
+Proof.
+  intros Hc. revert cur. induction l as [|a l IH]; intros cur.
+  - cbn [map split_chars]. now rewrite map_rev.
+  - cbn [map split_chars]. rewrite lower_char_eqb_nonletter by exact Hc. destruct (ascii_eqb a c).
+    + cbn [map]. rewrite map_rev. f_equal. apply (IH []).
+    + apply (IH (a :: cur)).
+Qed.
+
+Lemma split_lower c s : is_letter c = false -> split c (lower s) = map lower (split c s).
+Proof.
+  intros Hc. unfold split. rewrite chars_lower. change (@nil ascii) with (map lower_char []) at 1.
+  rewrite (split_chars_lower c (chars s) []) by exact Hc.
+  rewrite !map_map. apply map_ext. intros t. unfold lower. now rewrite chars_str_of.
+Qed.
+
+(* lower-case of printed numerals *)
+Lemma lower_char_digit_char d : 0 <= d < 36 -> lower_char (digit_char d) = digit_char d.
+Proof.
+  intros Hd. apply lower_char_not_upper. unfold is_upper. rewrite code_digit_char by lia. case_ltb d 10; lia.
+Qed.
+
+Lemma lower_char_digit_char_upper d : 0 <= d < 36 -> lower_char (digit_char_upper d) = digit_char d.
+Proof.
+  intros Hd. apply code_inj. rewrite code_lower_char. unfold is_upper.
+  rewrite code_digit_char_upper, code_digit_char by lia.
+  case_ltb d 10; destruct ((65 <=? _) && _) eqn:E; lia.
+Qed.
+
+Lemma lower_char_ch_0 : lower_char ch_0 = ch_0.
+Proof. reflexivity. Qed.
+
+Lemma map_lower_fmt_nat base up n : 2 <= base <= 36 -> 0 <= n ->
+  map lower_char (fmt_nat base up n) = fmt_nat base false n.
+Proof.
+  intros Hb Hn. rewrite !fmt_nat_eq, map_map. apply map_ext_in. intros d Hd.
+  pose proof (digits_of_range base n ltac:(lia) Hn) as HR.
+  eapply (proj1 (Forall_forall _ _)) in HR; [|exact Hd]. cbv beta in HR.
+  destruct up; cbn [fmt_digit]; [apply lower_char_digit_char_upper|apply lower_char_digit_char]; lia.
+Qed.
+
+Lemma map_lower_pad0 k l : map lower_char (pad0 k l) = pad0 k (map lower_char l).
+Proof.
+  unfold pad0. rewrite map_app, map_length. f_equal.
+  induction (k - List.length l)%nat as [|j IH]; [reflexivity|]. cbn [repeat_char map]. now rewrite IH.
+Qed.
+
+Lemma lower_fmt_x n : 0 <= n -> lower (fmt_x n) = fmt_x n.
+Proof. intros Hn. rewrite fmt_x_nonneg by lia. unfold lower. rewrite chars_str_of, map_lower_fmt_nat by lia. reflexivity. Qed.
+
+Lemma lower_fmt_X n : 0 <= n -> lower (fmt_X n) = fmt_x n.
+Proof. intros Hn. rewrite fmt_x_nonneg, fmt_X_nonneg by lia. unfold lower. rewrite chars_str_of, map_lower_fmt_nat by lia. reflexivity. Qed.
+
+Lemma lower_fmt_d n : 0 <= n -> lower (fmt_d n) = fmt_d n.
+Proof. intros Hn. rewrite fmt_d_nonneg by lia. unfold lower. rewrite chars_str_of, map_lower_fmt_nat by lia. reflexivity. Qed.
+
+Lemma lower_fmt_x_pad k n : 0 <= n -> lower (fmt_x_pad k n) = fmt_x_pad k n.
+Proof. intros Hn. unfold fmt_x_pad, lower. rewrite chars_str_of, map_lower_pad0, map_lower_fmt_nat by lia. reflexivity. Qed.
+
+Lemma lower_fmt_X_pad k n : 0 <= n -> lower (fmt_X_pad k n) = fmt_x_pad k n.
+Proof. intros Hn. unfold fmt_X_pad, fmt_x_pad, lower. rewrite chars_str_of, map_lower_pad0, map_lower_fmt_nat by lia. reflexivity. Qed.
+
+(* lower does not change what int() reads: digit values are case-insensitive *)
+Lemma digit_val_lower_char c : digit_val (lower_char c) = digit_val c.
+Proof.
+  unfold digit_val. rewrite code_lower_char. destruct (is_upper c) eqn:E; [|reflexivity]. unfold is_upper in E.
+  destruct ((48 <=? code c + 32) && (code c + 32 <=? 57)) eqn:E1; [lia|].
+  destruct ((97 <=? code c + 32) && (code c + 32 <=? 122)) eqn:E2; [|lia].
+  destruct ((48 <=? code c) && (code c <=? 57)) eqn:E3; [lia|].
+  destruct ((97 <=? code c) && (code c <=? 122)) eqn:E4; [lia|].
+  rewrite E. f_equal. lia.
+Qed.
+
+Lemma digit_in_lower_char base c : digit_in base (lower_char c) = digit_in base c.
+Proof. unfold digit_in. now rewrite digit_val_lower_char. Qed.
+
+(* ------------------------------------------------------------------------------------------ *)
+(** * starts_with *)
+
+Lemma starts_with_chars_iff p l : starts_with_chars p l = true <-> exists r, l = p ++ r.
+Proof.
+  revert l. induction p as [|a p IH]; intros l.
+  - cbn. split; [eauto|reflexivity].
+  - destruct l as [|b l]; cbn [starts_with_chars].
+    + split; [discriminate|intros [r E]; discriminate].
+    + rewrite andb_true_iff, ascii_eqb_eq, IH. split.
+      * intros [-> [r ->]]. now exists r.
+      * intros [r E]. cbn [app] in E. injection E as -> ->. eauto.
+Qed.
+
+Lemma starts_with_app p s : starts_with p (p ++ s)%string = true.
+Proof. unfold starts_with. apply starts_with_chars_iff. exists (chars s). apply chars_app. Qed.
+
+Lemma starts_with_iff p s : starts_with p s = true <-> exists r, s = (p ++ r)%string.
+Proof.
+  unfold starts_with. rewrite starts_with_chars_iff. split.
+  - intros [r E]. exists (str_of r). apply chars_inj. now rewrite chars_app, chars_str_of.
+  - intros [r ->]. exists (chars r). apply chars_app.
+Qed.
+
+Lemma str_len_app a b : str_len (a ++ b)%string = str_len a + str_len b.
+Proof. unfold str_len. rewrite <- !length_chars, chars_app, app_length. lia. Qed.
+
+Lemma str_len_nonneg s : 0 <= str_len s.
+Proof. unfold str_len. lia. Qed.
